@@ -807,10 +807,13 @@ def memo_fields(sm, E):
         rt.outcome(lambda: sm.Partial(e, "x").at(p))
         rt.outcome(lambda: sm.LocatedDifferential(e, p))
     fields = set()
+
+    def numeric(v):
+        return v is None or (isinstance(v, (int, float)) and not isinstance(v, bool)) or type(v).__name__ in ("SymReal", "SymInt")
     for n, b in zip(nodes, before):
         for k, v in vars(n).items():
-            if k not in b or (b[k] is not v and b[k] != v):
-                fields.add(k)
+            if (k not in b or (b[k] is not v and b[k] != v)) and numeric(v) and numeric(b.get(k)):
+                fields.add(k)        # a field that held nothing / a number before and holds a number now: a value memo
     return sorted(fields)
 
 
